@@ -468,12 +468,15 @@ def mon_c04(k, domain, check_ip, offered, up_frames, wildcard=False, srv="srv"):
                 if old is not None:
                     st["c04_takeover_checks"] += 1
                     gap = now_s - old["last_ok_s"]
-                    if gap <= 59:
+                    # "never takes over a slot whose session was active during the last 60 seconds": a session whose
+                    # last message was accepted exactly 60 s ago was active during the last 60 s (and is still served:
+                    # it is refused only after *more* than 60 s); whole seconds, as the server's clock
+                    if gap <= 60:
                         bad("C04:slot-taken-over", "a new session was given slot %d only %d s after that slot's session last had a message accepted" % (uid, gap),
                             ev, slot=uid, previous_owner=old["owner"], new_owner=kw["dst"][0])
                     else:
                         st["c04_slot_reuses"] += 1
-                        kinds.add(("slot-reused", "gap>60" if gap > 60 else "gap=60"))
+                        kinds.add(("slot-reused", "gap=61" if gap == 61 else "gap>61"))
                 slot[uid] = {"owner": kw["dst"][0], "login_t": None, "tun_ip": None, "last_ok_s": now_s, "last_maybe_s": now_s,
                              "vack_t": ev[0]}
             continue
